@@ -44,6 +44,19 @@ static std::string narrow(const C *s, size_t n) {
 
 // ------------------------------------------------------------------ value generators
 static double gen_double(vf::Rng &r, uint64_t variant) {
+    if (variant % 13 == 12) {
+        // the double nearest to a short decimal (1..17 digits x 10^e over the whole range): prints with few digits and
+        // many zeros, and parses back through the exact-product paths rather than the rounding ones
+        std::string t;
+        unsigned    nd = r.range(1, 17);
+        for (unsigned i = 0; i < nd; ++i) t += char('0' + (i == 0 ? 1 + r.below(9) : r.below(10)));
+        int e = int(r.below(616)) - 308 - int(nd);
+        if (r.chance(1, 2)) e = int(r.below(45)) - 5; // integers up to ~1e40 with trailing zeros
+        t += "e" + std::to_string(e);
+        double v = strtod(t.c_str(), nullptr);
+        if (std::isinf(v)) v = 1.7976931348623157e308;
+        return r.chance(1, 4) ? -v : v;
+    }
     switch (variant % 10) {
         case 0: { // uniform over finite bit patterns
             for (;;) {
